@@ -64,8 +64,10 @@ def kind_of(f):
 
 
 # --------------------------------------------------------------------------- stack originates RTS/CTS
-def h_orig_cmdt(ex, prop, L, holds=(0,), interval=None, windows='sym'):
-    """holds: number of hold-CTS (CTS with 0 packets) the peer sends before its k-th grant"""
+def h_orig_cmdt(ex, prop, L, holds=(0,), interval=None, windows='sym', rewind=None):
+    """holds: number of hold-CTS (CTS with 0 packets) the peer sends before its k-th grant
+    rewind = [k, back]: before its k-th grant the reference responder discards the last `back` packets and re-requests
+    them (CTS whose next-packet field goes back: retransmission request)"""
     c03, c09 = prop == 'C03', prop == 'C09'
     wa = ex.fresh_int('win_stack', 1, 255) if windows == 'sym' else windows
     w, n, ca, rx = mk_world(ex, wa, rts_cts_interval=interval)
@@ -91,6 +93,10 @@ def h_orig_cmdt(ex, prop, L, holds=(0,), interval=None, windows='sym'):
             w.after(ex.fresh_real('hold_gap', HOLD[0], HOLD[1]), send_cts, 'peer')
             return
         st['holds_left'] = None
+        if rewind is not None and k == rewind[0] and st['got'] >= rewind[1]:
+            st['got'] -= rewind[1]
+            del st['dts'][st['got']:]
+            remaining = npk - st['got']
         hi = remaining
         grant = ex.fresh_int('grant%d' % k, 1, hi)
         ex.assume(grant <= st['limit'])
